@@ -23,6 +23,7 @@
 use super::unifiable::{*, Unifiable::*};
 use super::goal::*;
 use super::logic_var::*;
+use super::time_out::*;
 use super::parse_terms::*;
 use super::parse_goals::*;
 
@@ -102,7 +103,9 @@ pub fn make_query(terms: Vec<Unifiable>) -> Goal {
     // the substitution set. The substitution set is as large as
     // the highest variable ID (LOGIC_VAR_ID). Therefore LOGIC_VAR_ID
     // should be set to 0 for every query.
-    clear_id();  // Reset LOGIC_VAR_ID.
+    // A previous query may have timed out, which leaves the flag
+    // SUIRON_STOP_QUERY set. A new query must not be affected by it.
+    start_query();  // Reset SUIRON_STOP_QUERY and LOGIC_VAR_ID.
 
     let mut new_terms: Vec<Unifiable> = vec![];
     let mut vars = VarMap::new();
